@@ -1023,6 +1023,8 @@ func runC13(c *Ctx) {
 	r.Rule("R3", "every NewNick in the handlers is followed on all paths by an Associate of that nick (the only accepted intervening condition: IsOn false)")
 	r.Rule("R4", "tracker-side safety (shared with C12): rename re-keys everything, GC and self-protection guards, own record never replaced, no overwrite on insert, mode arguments consumed; EnableStateTracking seeds the tracker with the configured nick")
 	r.Rule("R5", "every successful connect wipes the tracker (shared with C07.R4)")
+	r.Rule("R6", "the parameters the handlers index are the ones the server sent: the parser keeps a trailing parameter whenever a \" :\" section exists, an empty one included - TOPIC #chan : clears the topic (shared with C01.R6)")
+	c.parserTrailingRule("R6")
 
 	verbs := make([]string, 0, len(effectTable))
 	for v := range effectTable {
